@@ -28,10 +28,13 @@ class PathEnd(Exception):
 class PyRaise(Exception):
     """The analysed code raises a Python exception on this path."""
 
-    def __init__(self, cls, msg=""):
+    def __init__(self, cls, msg="", origin="model"):
         super().__init__(cls, msg)
         self.cls = cls
         self.msg = msg
+        # "repo": a raise / assert statement of the analysed code;  "model": raised by the interpreter's or a library model's
+        # reading of Python / numpy semantics (an arity error, an index out of range, None ordering, ...)
+        self.origin = origin
 
 
 # ---------------------------------------------------------------------------------------------
